@@ -1056,8 +1056,35 @@ func init() {
 								if bi, ok := x.Call.Value.(*ssa.Builtin); ok && bi.Name() == "append" {
 									return origin(x.Call.Args[0], d+1)
 								}
+								bufPath := ""
 								if sc := x.Call.StaticCallee(); sc != nil && funcFullName(sc) == "bytes.(*Buffer).Bytes" {
-									bufPath := accessPath(x.Call.Args[0])
+									bufPath = accessPath(x.Call.Args[0])
+								} else if sc != nil && c.inRoot(sc) && sc.Blocks != nil && sc.Signature.Recv() != nil && len(x.Call.Args) == 1 {
+									// an accessor of a small encoder object: `func (e *enc) bytes() []byte { return e.buf.Bytes() }`
+									suffix, all := "", true
+									for _, hb := range sc.Blocks {
+										ret, isRet := hb.Instrs[len(hb.Instrs)-1].(*ssa.Return)
+										if !isRet {
+											continue
+										}
+										bc, isCall := ret.Results[0].(*ssa.Call)
+										if !isCall || bc.Call.StaticCallee() == nil || funcFullName(bc.Call.StaticCallee()) != "bytes.(*Buffer).Bytes" {
+											all = false
+											continue
+										}
+										ip := accessPath(bc.Call.Args[0])
+										pn := sc.Params[0].Name()
+										if !strings.HasPrefix(ip, pn+".") && !strings.HasPrefix(ip, "&"+pn+".") {
+											all = false
+											continue
+										}
+										suffix = ip[strings.Index(ip, pn)+len(pn):]
+									}
+									if all && suffix != "" {
+										bufPath = accessPath(x.Call.Args[0]) + suffix
+									}
+								}
+								if bufPath != "" {
 									return scanBack(x, func(ins ssa.Instruction) (string, bool) {
 										if ci, ok := ins.(ssa.CallInstruction); ok {
 											if s2 := ci.Common().StaticCallee(); s2 != nil && funcFullName(s2) == "bytes.(*Buffer).Reset" && accessPath(ci.Common().Args[0]) == bufPath {
